@@ -112,6 +112,42 @@ def _instantiate(fa: Term, witnesses: list, sa: SetAlg) -> list:
     return out
 
 
+STRUCTURAL_HEADS = {"comp", "accum", "ite", "cases", "tuplelit", "listlit", "setlit", "dictlit", "bigunion", "concat", "mut", "after-iteration",
+                    "kv", "orelse", "setof", "copyof"}
+STRUCTURAL_CALLS = {"list", "tuple", "sorted", "set", "frozenset", "dict", "iter", "reversed", "chain", "from_iterable"}
+
+
+def _structural(t: Any) -> bool:
+    """Is the head of this (canonical) term a container / control idiom rather than an operand (variable, attribute, graph or DSL primitive,
+    set-algebra normal form)?"""
+    if not isinstance(t, tuple):
+        return False  # a name / number / string: an operand
+    if not t or not isinstance(t[0], str):
+        return True
+    h = t[0]
+    if h in STRUCTURAL_HEADS:
+        return True
+    if h == "call" and isinstance(t[1], str) and t[1].split(".")[-1] in STRUCTURAL_CALLS:
+        return True
+    return False
+
+
+def all_differences(a: Any, b: Any, out: list | None = None, depth: int = 0) -> list:
+    """All minimal pairs of differing sub-terms: descend wherever head and arity agree."""
+    if out is None:
+        out = []
+    if a == b or len(out) > 40:
+        return out
+    if isinstance(a, tuple) and isinstance(b, tuple) and len(a) == len(b) and depth < 80 and (
+            (is_term(a) and is_term(b) and a[0] == b[0]) or (not is_term(a) and not is_term(b))):
+        for x, y in zip(a, b):
+            if x != y:
+                all_differences(x, y, out, depth + 1)
+        return out
+    out.append((a, b))
+    return out
+
+
 class Outcome:
     def __init__(self, path: Path, sa: SetAlg, post: Callable[[Term], Term] | None):
         self.path = path
@@ -186,13 +222,20 @@ def compare_with_reference(model: Model, impl_q: str, ref_q: str, types: dict[st
                 continue
             if a.unknown:
                 return f, "UNKNOWN", f"a path of the implementation uses an idiom outside the evaluator (line {a.path.line}): {ev_i.unknowns[:2]}", sample
+            verdict = "REFUTED"
             if a.kind != b.kind:
                 d = f"the implementation {'raises ' + str(a.value) if a.kind == 'raise' else 'returns'} where the definition {'raises ' + str(b.value) if b.kind == 'raise' else 'returns a value'}"
             else:
                 x, y = first_difference(a.value, b.value)
                 d = f"implementation has `{_sh(x)}` where the definition has `{_sh(y)}`"
+                leaves = all_differences(a.value, b.value)
+                if leaves and all(_structural(u) and _structural(v) for u, v in leaves):
+                    # the two sides are built by different idioms at this point (loop vs comprehension, different container, ...): the
+                    # normaliser cannot relate them -- a recognition failure, not a witness of different operands
+                    verdict = "UNKNOWN"
+                    d = "the routine is written in an idiom the normaliser cannot relate to the definition's: " + d
             cond = show_formula(joint_guard(a, b, sa))
-            return f, "REFUTED", f"{d}  [on inputs with: {cond[:300]}] (line {a.path.line})", sample
+            return f, verdict, f"{d}  [on inputs with: {cond[:300]}] (line {a.path.line})", sample
     # coverage: every reference *return* path must be reachable through some implementation path with the same outcome
     for b in orf:
         if not any(a.kind == b.kind and a.value == b.value for a in oi):
